@@ -54,6 +54,16 @@ Section Main.
       destruct Hn. repeat split; assumption.
   Qed.
 
+  Theorem clone_equal_l b c : bwf norm b -> build sig H b = OK c ->
+    exists c', reload sig norm H set_of c = OK (c', false) /\
+      (forall ex, serialize ex c' = serialize ex c) /\ m_hash (cf_meta c') = m_hash (cf_meta c) /\
+      m_name (cf_meta c') = m_name (cf_meta c) /\ m_version (cf_meta c') = m_version (cf_meta c).
+  Proof.
+    intros W B. destruct (roundtrip_l b c W B) as [R [Q [S [_ [_ [Hh _]]]]]].
+    exists (reloaded H set_of c). split; [exact R|split; [exact S|split; [exact Hh|]]].
+    destruct Q as [Q1 _ _ _ _ _]. rewrite Q1. split; reflexivity.
+  Qed.
+
   (* the rebuilt builder holds the same node table (names, kinds, code, settings; type sets up to order) *)
   Theorem rebuilt_nodes_l b c : bwf norm b -> build sig H b = OK c ->
     exists b' w, from_config sig norm H set_of c = OK (b', w) /\ w = false /\
